@@ -2,7 +2,7 @@
 # tools/try_seed.sh <patch.diff> <check id>... : apply a seeded change to a scratch worktree of /repo HEAD
 # (never to /repo itself) and run the given quick checks against it via VERIF_REPO. Prints one line per check.
 set -u
-PATCH=$1; shift
+PATCH=$(readlink -f $1); shift
 WT=/tmp/mut/w
 mkdir -p /tmp/mut
 if [ ! -d $WT ]; then git -C /repo worktree add -q --detach $WT HEAD; fi
